@@ -23,7 +23,7 @@ IO = "sparse/numba_backend/_io.py"
 CORE = "sparse/numba_backend/_coo/core.py"
 NUMBA = "sparse/numba_backend/_coo/numba_extension.py"
 OUT = "Npz.lean"
-NAMES = ["npzCommon", "npzWrite", "npzNoneAxesAsEmpty", "npzRequire", "npzEmptyAxesAsNone", "npzRejectLeadingData",
+NAMES = ["npzCommon", "npzWrite", "npzNoneAxesAsEmpty", "npzRequire", "npzEmptyAxesAsNone", "npzRejectLeadingData", "npzVerifyCrc",
          "cooGetState", "cooSetState", "cooSetStateReset",
          "cooStruct", "cooShapeDtype", "cooUnbox", "cooBoxArgs", "cooBoxKwargs"]
 KNOWN_CLASSES = {"COO", "GCXS"}
@@ -219,12 +219,20 @@ def read_load(tree):
         raise Refuse(f"load_npz: `{u(c)}` is not `np.load(filename)` (object arrays must stay unloadable)")
     fp = item.optional_vars.id
     tries = list(body[0].body)
-    # optional leading guard: `if <... fp.zip ... header_offset ...>: raise RuntimeError(...)` (archives with data in front)
-    reject_leading = False
-    if (tries and isinstance(tries[0], ast.If) and not tries[0].orelse and len(tries[0].body) == 1 and isinstance(tries[0].body[0], ast.Raise)
-            and isinstance(tries[0].body[0].exc, ast.Call) and u(tries[0].body[0].exc.func) == "RuntimeError"
-            and f"{fp}.zip" in u(tries[0].test) and "header_offset" in u(tries[0].test)):
-        reject_leading = True
+    # optional leading guards on the archive itself: `if <test on fp.zip>: raise RuntimeError(...)`, the test a
+    # disjunction of "data in front of the archive" (`header_offset`) and "a member fails its checksum" (`testzip()`)
+    reject_leading = verify_crc = False
+    while (tries and isinstance(tries[0], ast.If) and not tries[0].orelse and len(tries[0].body) == 1 and isinstance(tries[0].body[0], ast.Raise)
+            and isinstance(tries[0].body[0].exc, ast.Call) and u(tries[0].body[0].exc.func) == "RuntimeError"):
+        t = tries[0].test
+        for part in (t.values if isinstance(t, ast.BoolOp) and isinstance(t.op, ast.Or) else [t]):
+            txt = u(part)
+            if f"{fp}.zip" in txt and "header_offset" in txt and txt.endswith("!= 0"):
+                reject_leading = True
+            elif txt == f"{fp}.zip.testzip() is not None":
+                verify_crc = True
+            else:
+                raise Refuse(f"load_npz: guard `{txt[:60]}` not understood")
         tries = tries[1:]
     branches, empty_as_none = [], False
     for i, t in enumerate(tries):
@@ -298,7 +306,7 @@ def read_load(tree):
         branches.append((cls, order))
     if not branches:
         raise Refuse("load_npz: no try block")
-    return branches, empty_as_none, reject_leading
+    return branches, empty_as_none, reject_leading, verify_crc
 
 
 # ---------------------------------------------------------------------------------------- pickle state
@@ -428,7 +436,7 @@ def generate(repo: Path):
     try:
         io_tree = ast.parse((repo / IO).read_text())
         common, write, none_as_empty = read_save(io_tree)
-        require, empty_as_none, reject_leading = read_load(io_tree)
+        require, empty_as_none, reject_leading, verify_crc = read_load(io_tree)
         get, st, reset = read_state(ast.parse((repo / CORE).read_text()))
         members, shape_dtype, unbox, bargs, bkwargs = read_numba(ast.parse((repo / NUMBA).read_text()))
     except (Refuse, OSError, SyntaxError, AttributeError, IndexError) as e:
@@ -462,6 +470,9 @@ def npzEmptyAxesAsNone : Bool := {b(empty_as_none)}
 
 /-- `load_npz`: `true` iff an archive with data in front of it (`header_offset ≠ 0`) is rejected before any member is read -/
 def npzRejectLeadingData : Bool := {b(reject_leading)}
+
+/-- `load_npz`: `true` iff the checksum of every member is verified (`zip.testzip()`) before any member is read -/
+def npzVerifyCrc : Bool := {b(verify_crc)}
 
 /-- `COO.__getstate__`: the state tuple (attribute names) -/
 def cooGetState : List String := {lst(map(s, get))}
